@@ -520,6 +520,58 @@ def join(pre, toks):
     return '%s|%s|%s' % (nm, sched, '|'.join(' '.join(p) for p in progs))
 
 
+def signal_case(rng):
+    """exception_signals() (case flag x: installed before anything runs), then main and 1-4 workers each turn signals raised in
+    their own thread (x<k>: SIGFPE, SIGSEGV, SIGTERM, SIGINT, SIGILL, SIGABRT by raise()) into exceptions inside their own
+    try/catch.  In contract on the pinned tree: a thread takes a signal of one kind at most once (the handler is left by longjmp,
+    the signal stays blocked in THAT thread) and nobody creates a thread after taking one (a new thread inherits the mask)."""
+    nw = rng.choice([1, 2, 2, 3, 4])
+
+    def prog(nsig):
+        kinds = rng.sample(range(6), nsig)
+        out = []
+        for k in kinds:
+            pre = rng.choice([[], ['o'], ['e%d' % rng.randrange(100)], ['s%d,%d' % (rng.randrange(NKEYS), rng.randrange(50))]])
+            shape = rng.random()
+            if shape < .4: st = ['[', 'x%d' % k, 'e%d' % rng.randrange(100), ']%d' % (6 + k), 'e%d' % rng.randrange(100), '}']
+            elif shape < .7: st = ['[', 'x%d' % k, ']', 'o', '}']
+            else: st = ['[', '[', 'x%d' % k, ']%d' % (6 + (k + 1) % 6), 'e1', '}', ']%d,%d' % (6 + k, rng.randrange(6)), 'e%d' % rng.randrange(100), '}']
+            out += pre + st
+            if rng.random() < .3: out += ['y']
+        return out + ['o']
+    main = ['S%d' % u for u in range(1, nw + 1)] + prog(rng.choice([0, 1, 2]))
+    for u in rng.sample(range(1, nw + 1), nw): main += ['J%d' % u, 'P%d' % u]
+    same = rng.random() < .5
+    k0 = rng.choice([1, 2, 2, 3])
+    p0 = prog(k0)
+    progs = [main] + [(list(p0) if same else prog(rng.choice([1, 2, 2, 3]))) for _ in range(nw)]
+    return '1x|0|' + '|'.join(' '.join(p) for p in progs)
+
+
+def foreign_del_case(rng):
+    """threads call del() on objects that belong to ANOTHER thread's collector (published with new_root / new_raw, or managed and
+    rooted on the owner's stack) while the owner keeps using them; the owner releases its results itself after the joins"""
+    nw = rng.choice([1, 2, 3, 4])
+    npub = rng.choice([1, 2, 3])
+    main = []
+    for i in range(npub): main.append(rng.choice(['p0', 'p0', 'p1']))
+    main += ['a1', 'a1']
+    main += ['S%d' % u for u in range(1, nw + 1)]
+    main += rng.choice([['w0,30'], ['w3,60', 'c'], ['c', 'w1,30', 'c'], ['o']])
+    for u in range(1, nw + 1): main += ['J%d' % u]
+    main += ['o'] + ['D%d' % i for i in range(npub)] + ['c', 'o']
+    progs = [main]
+    for u in range(1, nw + 1):
+        p = []
+        for _ in range(rng.randrange(2, 7)):
+            owner = 0 if rng.random() < .7 or u == 1 else rng.randrange(1, u)
+            p.append('d%d,%d' % (owner, rng.choice(list(range(npub)) + [100, 101])))
+            if rng.random() < .5: p.append(rng.choice(['y', 'e%d' % rng.randrange(100), 'z2', 'a0', 'c']))
+        if rng.random() < .6: p = ['p%d' % rng.randrange(2)] + p      # something of its own a sibling may try to delete
+        progs.append(p + ['e%d' % rng.randrange(1000)])
+    return '1|0|' + '|'.join(' '.join(p) for p in progs)
+
+
 def long_hold_case(ms, variant=0):
     """one thread keeps mutex 0 for ms milliseconds while three others wait for it: by lock(), by a with-block and by
     lock() after a failed trylock().  Flag n: no stand-alone phase.  Judged by the overlap counters and by the
@@ -579,6 +631,9 @@ def tsan_pass(ctx, cases, run_model, run_spec):
 
 
 CORPUS = [
+    # signals as exceptions in several threads (each catches its own); del() by a thread that does not own the object
+    '1x|0,1,2|S1 S2 S3 [ x0 e9 ]6 e1 } [ x1 ]7 e2 } J1 J2 J3 P1|[ x0 e9 ]6 e1 } [ x1 ] e2 } o|[ x0 ]6 e1 } [ [ x2 ]6 } ]8 e3 } o|e5 [ x0 ] } [ x3 e7 ] e8 }',
+    '1|0,1,2|p0 p1 a1 S1 S2 w0,30 J1 J2 o D0 D1 c|d0,0 d0,1 d0,100 e1 p0 z20 e2|z5 d0,0 d1,0 d0,1 e3',
     # a worker inside a try block copies itself (copy(current(Thread))) and calls the copy; main copies a finished thread;
     # results published with new_root / new_raw; a managed object held only by the TLS under a "__" key
     '1|0,1,2|S1 J1 P1 K3,1 J3 P3|s1,5 [ o K2,1 s2,6 o p0 p1 h0 c ] } J2 P2 e1|o m2 [ g1 ]0 } [ t1 ]1 o } e2|o m1 m2 e3',
@@ -756,6 +811,7 @@ def run(ctx):
     else:
         plan = [(n, None, False) for n in range(1, 17) for _ in range(500)] + [(n, 14, True) for n in range(1, 17) for _ in range(20)] + [('reuse', 8, False)] * 800 + [('clone', 8, False)] * 600
     cases = usable([gen_case(ctx.rng, None if n in ('reuse', 'clone') else n, s, hv, safe, n == 'reuse', n == 'clone') for (n, s, hv) in plan])
+    cases += usable([signal_case(ctx.rng) for _ in range(60 if quick else 600)] + [foreign_del_case(ctx.rng) for _ in range(60 if quick else 600)])
     for i in range(0, len(cases), 320):      # run_lines runs shards of 80 cases side by side
         d.feed(cases[i:i + 320])
     ctx.cov['thread_counts'] = sorted(set(c.count('|') - 1 for c in cases))
